@@ -407,7 +407,7 @@ def numeric_smooth(ctx, rnd, nrnd, n):
             ctx.violation("smooth:lp", f"smooth.lp(n={m}, fac={fac}, pad={pad}): constant {c} -> deviation "
                           f"{np.max(np.abs(np.asarray(out) - c)) if np.asarray(out).shape == x.shape else 'shape ' + str(np.asarray(out).shape)}, "
                           f"random input length {np.asarray(out2).shape}", {"kind": "smooth"})
-        wl = rnd.choice([1, 3, 5, 7, 9, 11, 15, 21, 31])
+        wl = rnd.choice([1, 3, 5, 7, 9, 11, 15, 21, 31, 2, 4, 6, 8, 10, 12, 20, 30])    # the docstring recommends odd lengths; the clause has no such limit
         win = rnd.choice(["flat", "hanning", "hamming", "bartlett", "blackman"])
         if m >= wl:
             ok, out = real(ctx, "smooth:rolling-window", f"smooth.rolling_window(n={m}, window_len={wl}, {win})", {"kind": "smooth"},
@@ -576,7 +576,7 @@ def run(ctx):
     ctx.cov["exhaustive"] = True
     ctx.assumptions += ["every sorter has at least one spike; spike samples are sorted non-negative integers",
                         "plane-wave identity demanded on regular full grids (the code documents regularly spaced coordinates)",
-                        "smooth.lp pad in (0, 1]; rolling_window with odd window lengths; savgol window < number of points",
+                        "smooth.lp pad in (0, 1]; rolling_window with window lengths 1..31 of both parities; savgol window < number of points",
                         "noise-reduction scenarios: regular grids with >= 16 rows resp. matrices with ns > nc >= 8 x rank; requested rank = number of plane waves / rank of the signal; noise 20-30 % (measured error ratio <= 0.6, required < 1)"]
 
 
